@@ -21,8 +21,8 @@ pub struct FuzzTarget {
 }
 
 pub const TARGETS: &[FuzzTarget] = &[
-    FuzzTarget { name: "vm_bytes", property: "C05", max_len: 160, runs_per_job: 150_000, quick_random: 4_000, thorough_random: 200_000 },
-    FuzzTarget { name: "vm_ops", property: "C05", max_len: 200, runs_per_job: 150_000, quick_random: 4_000, thorough_random: 200_000 },
+    FuzzTarget { name: "vm_bytes", property: "C05", max_len: 160, runs_per_job: 40_000, quick_random: 4_000, thorough_random: 200_000 },
+    FuzzTarget { name: "vm_ops", property: "C05", max_len: 200, runs_per_job: 40_000, quick_random: 4_000, thorough_random: 200_000 },
     FuzzTarget { name: "asm_codec", property: "C13", max_len: 120, runs_per_job: 600_000, quick_random: 4_000, thorough_random: 200_000 },
     FuzzTarget { name: "decoders", property: "C06", max_len: 256, runs_per_job: 600_000, quick_random: 4_000, thorough_random: 200_000 },
     FuzzTarget { name: "check_hostile", property: "C06", max_len: 1600, runs_per_job: 25_000, quick_random: 1_000, thorough_random: 50_000 },
